@@ -21,7 +21,7 @@ op_ctx = dict(
         # constructor: allocation of the holder array and unwinding of a failed construction
         (r'std::allocator<_operation_holder> allocator;', ''),
         (r'holders_ = allocator\.allocate\(VF_N\);', 'EV_allocate_holders(self);'),
-        (r'std::destroy\(\s*std::make_reverse_iterator\(holders_ \+ numHolders_\),\s*std::make_reverse_iterator\(holders_\)\);', 'EV_destroy_holders(self, numHolders_);'),
+        (r'std::destroy\(\s*std::make_reverse_iterator\(holders_ \+ ([^()]*)\),\s*std::make_reverse_iterator\(holders_\)\);', r'EV_destroy_holders(self, \1);'),
         (r'allocator\.deallocate\(holders_, VF_N\);', 'EV_deallocate_holders(self);'),
         (r'UNIFEX_RETHROW\(\);', 'EV_rethrow(self);'),
         # start(): zero children -> immediate empty value; else registration on the receiver's token, start of every child
@@ -67,10 +67,10 @@ SPEC = dict(
     properties=['C01', 'C04', 'C05'],
     ctx={},
     extracts={
-        'refCount_init': dict(file=H, kind='expr', sig=r', refCount_\((senders\.size\(\))\) \{', ctx=op_ctx),
+        'refCount_init': dict(file=H, kind='expr', sig=r', refCount_\(([^{;]*)\) \{', ctx=op_ctx),
         'numHolders_init': dict(file=H, kind='expr', sig=r'std::size_t numHolders_\{([^}]*)\}', ctx=op_ctx),
         'doneOrError_init': dict(file=H, kind='expr', sig=r'std::atomic<bool> doneOrError_\{([^}]*)\}', ctx=op_ctx),
-        'ctor': dict(file=H, sig=CTOR, within=OPCLS, ctx=op_ctx, must_contain=[r'\+\+numHolders_'],
+        'ctor': dict(file=H, sig=CTOR, within=OPCLS, ctx=op_ctx, must_contain=[r'for \(auto&& sender : senders\)'],
                           loops={0: '__CPROVER_assigns(vf_i, OP.numHolders_, G.connected, G.ctor_threw)\n'
                                     '__CPROVER_loop_invariant(vf_i <= VF_N && OP.numHolders_ == vf_i && G.connected == vf_i && !G.ctor_threw)\n'
                                     '__CPROVER_decreases(VF_N - vf_i)'}),
@@ -89,7 +89,7 @@ SPEC = dict(
                     r'unifex::inplace_stop_source stopSource_;',
                     r'(?s)unifex::manual_lifetime<typename unifex::stop_token_type_t<\s*Receiver&>::template callback_type<cancel_operation>>\s*stopCallback_;',
                     # constructor's mem-initialiser (extracted as EXPR refCount_init; the body is extract `ctor`) and destructor
-                    r', refCount_\(senders\.size\(\)\) \{',
+                    r', refCount_\([^{;]*\) \{',
                     r'(?s)~type\(\) \{.*?allocator\.deallocate\(holders_, numHolders_\);\s*\}',
                     # read-only accessor handing the children their stop token
                     r'(?s)unifex::inplace_stop_source& get_stop_source\(\) const noexcept \{\s*return op_\.stopSource_;\s*\}']),
